@@ -93,6 +93,7 @@ class Observer:
         self.order: list[str] = []
         self.fin_order: list[str] = []
         self.events = []               # model events in order: start / submit / adopt / finish / died
+        self.exec_crash = None         # (job id, exception type, message) if _exec_job_main_thread itself raised
         self.install()
 
     def obs(self, job):
@@ -119,6 +120,12 @@ class Observer:
             nsub = O.tr.ex.nsubmits.get(job.id, 0)
             try:
                 return orig_exec_main(job, eval_args)
+            except BaseException as e:  # noqa
+                # the scheduler itself failed while starting this job (nothing was recorded for it)
+                O.exec_crash = (job.id, type(e).__name__, str(e)[:200])
+                if first and O.events and O.events[-1] == ("start", job.id):
+                    O.events.pop()
+                raise
             finally:
                 if O.tr.ex.nsubmits.get(job.id, 0) > nsub:
                     from redun.scheduler import CacheScope
@@ -182,8 +189,17 @@ class Observer:
                 if o.collapsed_into and job.call_hash and not o.adopt_logged:
                     O.events.append(("adopt", job.id, ("twin", o.collapsed_into)))
                     o.adopt_logged = True
+                # the call tree as the harness saw it: every job created under this one (a collapsed job counts as
+                # the twin it was collapsed into), against what the scheduler lists in job.child_jobs
+                from collections import Counter
+                exp = Counter((t.collapsed_into or t.id) for t in O.jobs.values() if t.parent == job.id)
+                act = Counter(c.id for c in job.child_jobs if c.id in O.jobs)
+                o.children_expected, o.children_listed = dict(exp), dict(act)
+                model_children = [c.id for c in job.child_jobs]
+                if exp != act:
+                    model_children = [(t.collapsed_into or t.id) for t in O.jobs.values() if t.parent == job.id]
                 fin_ev = {"job": job.id, "ok": kind == "resolve", "cached": bool(job.was_cached),
-                          "children": [c.id for c in job.child_jobs],
+                          "children": model_children,
                           "vtags": [(vh, list(ts)) for vh, ts in job.value_tags],
                           "jtags": list(job.get_option("tags", []) or []) + list(job.job_tags) + list(kw.get("job_tags", []) or []),
                           "etags": list(job.execution_tags), "result": o.result_hash}
@@ -304,6 +320,13 @@ def check_db(runs, db, type_registry=None, strict_values=True):
                 kind = ("tags:same-pair-twice-in-one-job" if o.crash[0] == "IntegrityError" and "tag.tag_hash" in o.crash[1]
                         else o.crash[0])
                 add(f"crash:{kind}", f"the {o.fin} handler of job {o.n} ({o.task_name}) raised {o.crash}")
+            if getattr(o, "children_expected", None) != getattr(o, "children_listed", None):
+                exp_n = sum(o.children_expected.values())
+                act_n = sum(o.children_listed.values())
+                add("children:list-differs-from-call-tree",
+                    f"job {o.n} ({o.task_name}) made {exp_n} child calls, but its CallNode is hashed over / gets edges for "
+                    f"{act_n} of them (job.child_jobs lost or gained an entry: "
+                    f"{ {allobs[k].n: v for k, v in o.children_expected.items()} } vs { {allobs[k].n: v for k, v in o.children_listed.items()} })")
             if o.fin == "resolve" and o.known_at_entry:
                 h = o.known_at_entry
                 E[jid] = h
@@ -397,6 +420,19 @@ def check_db(runs, db, type_registry=None, strict_values=True):
                     add("failed:result-not-error", f"failed job {o.n}: result value of its node is not an ErrorValue row")
                 E[jid] = h
                 explains.setdefault(h, []).append((jid, ch))
+
+    for run in runs:
+        xc = run["obs"].exec_crash
+        if xc:
+            o = allobs[xc[0]]
+            par = allobs.get(o.parent)
+            if xc[1] == "ValueError" and "is not in list" in xc[2] and par is not None and par.fin is not None:
+                add("crash:collapse-after-parent-settled",
+                    f"job {o.n} ({o.task_name}) became ready after its parent job {par.n} had already {par.fin}ed (child list "
+                    f"cleared) while an equivalent job was pending: Job.collapse raised {xc[1]}: {xc[2][:80]} and the whole "
+                    f"execution died with that internal error")
+            else:
+                add(f"crash:exec:{xc[1]}", f"_exec_job_main_thread of job {o.n} ({o.task_name}) raised {xc[1]}: {xc[2]}")
 
     for cid, hc, pn in claims:
         if E.get(cid, hc) != hc:
@@ -538,6 +574,8 @@ def spec_tag_sources(o, type_registry):
     """Tags the body of this job applies when it is evaluated: (value tags [(value_hash, k, v)], job tags, execution tags)."""
     from harness.progs import vm_c20
     sp = o.spec
+    if o.task_name not in ("rvvm20.node", "rvvm20.tnode", "rvvm20.snode"):
+        return None            # recover(error) / ident(spec) take other things as their argument
     if not isinstance(sp, tuple) or len(sp) < 4 or sp[1] not in ("tagv", "tagc"):
         return None
     d = dict(sp[2])
@@ -683,6 +721,13 @@ def gen_spec20(rng: random.Random, depth=3, pool=None, counter=None, p_noprov=0.
         k = rng.random()
         n = rng.choice([1, 2, 2, 3, 4])
         children = tuple(rec(d - 1) for _ in range(n))
+        if rng.random() < 0.3:
+            # the same call once more under the SAME parent, through a different expression (its argument is computed
+            # by ident(...)): not merged as an expression, collapsed into the first one when that is still pending
+            c = rng.choice(children)
+            o = dict(c[4] or {})
+            o["via"] = True
+            children = children + (c[:4] + (o,),)
         if k < 0.55:
             s = (f"n{counter[0]}", "list", rng.randint(0, 1), children, opts())
         elif k < 0.7:
